@@ -128,8 +128,9 @@ impl<'a> World<'a> {
     }
 }
 
-pub const NAMES: &[&str] = &["p", "q", "r", "s", "t", "u", "v8", "w"];
-pub const VARS: &[&str] = &["x", "y", "z", "k"];
+// "x" and "y" are also variable names, "p" is also a variable: a name can be a program and a variable at once (the variable wins)
+pub const NAMES: &[&str] = &["p", "q", "r", "s", "t", "u", "v8", "w", "x", "y"];
+pub const VARS: &[&str] = &["x", "y", "z", "k", "p"];
 
 fn sources(r: &mut Rng) -> T {
     let x = || id("x");
